@@ -100,9 +100,11 @@ static void srv_build_answer_rrs(sdns_out_t *o, const sdns_query_t *q, uint32_t 
       case SDNS_T_AAAA:
         {
           int pass;
-          for (pass = 0; pass < (other_family ? 2 : 1); pass++) {
-            uint16_t t = pass == 0 ? qt : (qt == SDNS_T_A ? SDNS_T_AAAA : SDNS_T_A);
-            at         = sdns_rr_begin(o, 1, have_owner ? owner : NULL, 12, t, cls, ttl);
+          int reps = (sim_answer_dup_every && (k % sim_answer_dup_every) == 0) ? 2 : 1;
+          for (pass = 0; pass < (other_family ? 2 : 1) * reps; pass++) {
+            uint16_t t  = (pass % (other_family ? 2 : 1)) == 0 ? qt : (qt == SDNS_T_A ? SDNS_T_AAAA : SDNS_T_A);
+            uint16_t rc = (sim_answer_foreign_class_every && (k % sim_answer_foreign_class_every) == 1) ? 3 : cls;
+            at          = sdns_rr_begin(o, 1, have_owner ? owner : NULL, 12, t, rc, ttl);
             if (t == SDNS_T_A) {
               sdns_put8(o, 10);
               sdns_put8(o, (unsigned)k & 0xff);
